@@ -738,6 +738,13 @@ def run(ctx):
     from . import builders
     r13 = ctx.rule("C06-R13", "ignore_header (cnf / wcnf / gcnf Config) is set by its own setter only: the counts of a header are unenforced exactly when the caller asked for it", floor=6)
     builders.run(ctx, r13, ["flussab_cnf::cnf::Config", "flussab_cnf::wcnf::Config", "flussab_cnf::gcnf::Config"], 3)
+    # R14: the AIGER parsers keep running totals of declared sizes (justice sizes -> literals still to come) and derive
+    # limits from header counts; without overflow checks a total that wraps is accepted as a small one.  The arithmetic
+    # on declared numbers in flussab-aiger is discharged site by site by C05-R2 (guards, limits handed to header_field
+    # as MAX - total, counter bounds); run here on that crate
+    from . import c05, taint as T
+    r14 = ctx.rule("C06-R14", "sums and products of declared numbers in the AIGER parsers cannot wrap: each is bounded by a guard or by the limit handed to the token that read the number (shared with C05-R2)", floor=20)
+    c05.run_r2(ctx, r14, T.Taint(ctx.facts), only=lambda f: f.crate == "flussab_aiger")
     r11 = ctx.rule("C06-R11", "the declared variable count is capped at the literal type's maximum in all three DIMACS header parsers", floor=3)
     run_r11(ctx, r11)
     r10 = ctx.rule("C06-R10", "justice literals are filed under a property only while it holds fewer than its declared number (test of the current index dominates the push)", floor=2)
